@@ -5,6 +5,7 @@ from engine import site
 
 CONFIGS = ['prod']
 EXPLANATION = (
+    'NODE: the node clock that owns the hybrid clock for concurrent callers — the actor loop and the register_ts / get_time handle interpreted (C11.SEM re-evaluated): every foreign stamp reaches the actor on every path and is merged before a later request is answered. '
     'CODEC: the packed word reads back every field as written — layout, accessors and identities by bit-vector interpretation (C10.SEM / E1 re-evaluated: send / recv unpack and re-pack the clock through them). '
     'SEM (primary): send / recv interpreted over all weak orders of (clock, wall, message) time, node-id equality and drift / exhaustion oracles, compared '
     'with the hybrid-clock rule (time = max, counter +1 on equal time else 0, drift of the message and of the new time refused, exhaustion refused, one sta'
@@ -355,6 +356,12 @@ def check(ctx):
         c10.check_E1(ctx, facts)
     for o in ctx.obs[n0:]:
         o.rule = o.rule.replace('C10.E', 'C09.CODEC.E')
+    # NODE: where the clock is used by several tasks it is owned by the node's clock actor; "a stamp issued after a stamp was registered is
+    # greater than it" then also needs the handle to hand every foreign stamp to the actor and the actor to merge it before it answers
+    # (= C11.SEM, re-evaluated; round 7, C09g: register_ts skipped the actor below a shared "newest seen" mark raised before the hand-over)
+    import actor_abs
+    actor_abs.check_clock_actor(ctx, facts, 'C09.NODE')
+    actor_abs.check_clock_handle(ctx, facts, 'C09.NODE')
     import hlc_abs
     if hlc_abs.check_hlc(ctx, facts, 'C09.SEM'):
         return
